@@ -13,7 +13,7 @@ open Iauthd Iauthd.Proto
 theorem C11_first_match (st : Static) (pre post : List Rule) (rule : Rule) (c c' : Ctx) (rules' : List Rule)
     (hpre : ∀ q ∈ pre, ruleMatches c.svcs q c.req = false) (hm : ruleMatches c.svcs rule c.req = true)
     (h : classRules st (pre ++ rule :: post) c = .ok (c', rules')) :
-    c'.req.cls = strlcpy63 (rule.cls.getD rule.name)
+    c'.req.cls = strlcpyN c.lim.cls (rule.cls.getD rule.name)
       ∧ rules' = pre ++ { rule with assigned := rule.assigned + 1 } :: post :=
   classRules_first_match st pre post rule c c' rules' hpre hm h
 
@@ -30,8 +30,8 @@ theorem C11_criteria (svcs : List (Option Svc)) (rule : Rule) (r : Req) :
       ∧ (∀ n, rule.xreplyOk = some n → xreplyOk svcs r n > 0) :=
   ruleMatches_iff svcs rule r
 
-/-- the class buffer keeps at most 62 bytes -/
-theorem C11_class_len (s : Bytes) : (strlcpy63 s).length ≤ 62 := by
-  unfold strlcpy63; simp [List.length_take]; omega
+/-- the class buffer keeps at most CLASSLEN - 1 bytes -/
+theorem C11_class_len (n : Nat) (s : Bytes) : (strlcpyN n s).length ≤ n - 1 := by
+  unfold strlcpyN; simp [List.length_take]; omega
 
 end Iauthd.Properties
